@@ -598,6 +598,10 @@ def run(prog, rep, tier):
     rep.floor('PLUSHC-hc-block', 9)
     rep.floor('TERMS-interface', 15)
     rep.assumptions += ['equality of the dense matrices of the representations is NOT decided']
+    from ..flow import check_dead_computations
+    rep.rule('VALUE-dead', 'no result of a call is bound to a local that is never read (reaching '
+             'definitions)')
+    check_dead_computations(prog, rep, ['tenpy/models/model.py', 'tenpy/networks/terms.py'])
     return rep.finish(
         level='other',
         explanation='plus_hc / explicit_plus_hc protocol decided for %d sibling add_* methods of '
